@@ -261,7 +261,7 @@ const vUnion = `
 		RETURNS boolean
 		AS $$
 	BEGIN
-		IF jsonb_typeof(data) != 'object' OR jsonb_typeof(data->'Kind') != 'string' OR jsonb_typeof(data->'Data') = 'null' THEN 
+		IF jsonb_typeof(data) != 'object' OR jsonb_typeof(data->'Kind') != 'string' THEN 
 			RETURN FALSE;
 		END IF;
 		CASE 
